@@ -50,23 +50,24 @@ type CorruptSpec struct {
 }
 
 type seqRun struct {
-	c           SeqCase
-	w           *World
-	m           *refmodel.Model
-	a           *actors
-	idx         *valueIndex
-	viol        *Violation
-	states      map[uint64]bool
-	probes      map[string]uint64
-	faults      map[string]uint64
-	ended       map[int]bool
-	dirSeenFull map[string]bool
-	dirRegained map[string]int
-	dirQuiesced map[string]bool // the world has been at exact quiescence since the directory regained room
-	writesSince map[string]int
-	missLog     map[string]float64 // per regained directory: ln of the chance that a fair choice missed it so far
-	nontrivial  bool
-	readers     map[int]*heldReader
+	c            SeqCase
+	w            *World
+	m            *refmodel.Model
+	a            *actors
+	idx          *valueIndex
+	viol         *Violation
+	states       map[uint64]bool
+	probes       map[string]uint64
+	faults       map[string]uint64
+	ended        map[int]bool
+	dirSeenFull  map[string]bool
+	dirRegained  map[string]int
+	dirQuiesced  map[string]bool // the world has been at exact quiescence since the directory regained room
+	writesSince  map[string]int
+	missLog      map[string]float64 // per regained directory: ln of the chance that a fair choice missed it so far
+	nontrivial   bool
+	readers      map[int]*heldReader
+	droppedFiles map[string]bool // files that existed when a root was last taken out of the configuration
 }
 
 // heldReader is a content reader that was handed out by GetReader and is read only later, after
@@ -221,6 +222,19 @@ func (s *seqRun) step(i int, o Op) bool {
 		s.probes["restart"]++
 	case "reopen":
 		s.w.Disk.FailMkdirs = 0
+		if o.N > 0 && o.N <= len(s.w.Roots) && len(s.w.Roots)-len(s.w.Dropped) > 1 && !s.w.Dropped[o.N-1] {
+			// the database is opened again with one root fewer
+			if s.w.Dropped == nil {
+				s.w.Dropped = map[int]bool{}
+			}
+			s.w.Dropped[o.N-1] = true
+			s.droppedFiles = map[string]bool{}
+			files, _, _ := s.w.walkRoots()
+			for _, f := range files {
+				s.droppedFiles[f.Path] = true
+			}
+			s.probes["reopen-with-a-root-removed"]++
+		}
 		if err := s.w.Close(); err != nil {
 			s.fail("error-class", "close", fmt.Sprintf("step %d: Close failed: %v", i, err))
 			return false
